@@ -49,11 +49,42 @@ type NetOpts struct {
 	ByzIdx    []int
 	Outsiders int
 	Inst      uint64
+	IdScheme  int // 0: two-byte ids; 1: 20-byte ids sharing their first three bytes; 2: 24-byte ids sharing their first twenty bytes
 }
 
-func memberId(i int) []byte { return []byte{0xa0 + byte(i), byte(i*7 + 1)} }
+// idScheme is set by NewNet for the scenario being built (member and outsider ids are derived from it)
+var idScheme int
+
+func idBytes(tag byte, i int) []byte {
+	switch idScheme {
+	case 1:
+		b := make([]byte, 20)
+		b[0], b[1], b[2] = 0xa7, 0x01, 0x02
+		b[3], b[4], b[19] = tag+byte(i), byte(i*7+1), byte(i)
+		return b
+	case 2:
+		b := make([]byte, 24)
+		for k := 0; k < 20; k++ {
+			b[k] = byte(0x30 + k)
+		}
+		b[20], b[21] = tag+byte(i), byte(i*7+1)
+		return b
+	}
+	return []byte{tag + byte(i), byte(i*7 + 1)}
+}
+
+func memberId(i int) []byte { return idBytes(0xa0, i) }
+
+func outsiderId(i int) []byte {
+	if idScheme == 0 {
+		return []byte{0xee, byte(i)}
+	}
+	return idBytes(0xe0, i)
+}
 
 func NewNet(c *Ctx, o NetOpts, label string) *Net {
+	idScheme = o.IdScheme
+	c.Class(fmt.Sprintf("ids/scheme%d", idScheme))
 	w := NewWorld(o.Inst)
 	net := &Net{c: c, r: c.Rng, w: w, byz: map[string]bool{}, nodes: map[string]*RealNode{}, label: label}
 	for i := 0; i < o.N; i++ {
